@@ -255,6 +255,91 @@ theorem burnthin_funvals_commute (s f : Samples) (b t : ℕ) (ht : 1 ≤ t) (h :
 
 
 
+
+
+lemma mapE_length {α β : Type} (f : α → Except String β) (xs : List α) (ys : List β)
+    (h : mapE f xs = .ok ys) : ys.length = xs.length := by
+  have := congrArg List.length ((mapE_ok_iff_map f xs ys).mp h)
+  simpa using this.symm
+
+lemma mapE_natSlice {α β : Type} (f : α → Except String β) (xs : List α) (ys : List β) (b t : ℕ)
+    (ht : 1 ≤ t) (h : mapE f xs = .ok ys) : mapE f (natSlice xs b t) = .ok (natSlice ys b t) := by
+  rw [mapE_ok_iff_map, ← natSlice_map _ _ _ _ ht, ← natSlice_map _ _ _ _ ht, (mapE_ok_iff_map f xs ys).mp h]
+
+lemma burnthin_error_of_ge (s : Samples) (b t : ℤ) (h : b ≥ (s.Ns : ℤ)) :
+    s.burnthin b t = .error "ValueError" := by
+  unfold Samples.burnthin; rw [if_pos h]
+
+/-- **burn-in/thinning commutes with `vector`** (refusals included) -/
+theorem burnthin_vector_commute (s v : Samples) (b t : ℕ) (ht : 1 ≤ t) (h : s.vector = .ok v) :
+    (s.burnthin b t >>= Samples.vector) = v.burnthin b t := by
+  by_cases hrep : (s.isVec || s.isPar) = true
+  · have hid : ∀ s' : Samples, s'.isPar = s.isPar → s'.isVec = s.isVec → s'.vector = .ok s' := by
+      intro s' h1 h2; unfold Samples.vector; rw [h1, h2, if_pos hrep]
+    rw [hid s rfl rfl] at h
+    cases h
+    cases hb : s.burnthin b t with
+    | error e => rfl
+    | ok s' =>
+      obtain ⟨-, h1, h2, -⟩ := burnthin_flags_preserved s s' b t hb
+      exact hid s' h1 h2
+  · unfold Samples.vector at h
+    rw [if_neg hrep] at h
+    cases hm : mapE s.geom.fun2vec s.cols with
+    | error e => rw [hm] at h; cases h
+    | ok cs =>
+      rw [hm] at h
+      cases h
+      by_cases hb : b < s.Ns
+      · rw [burnthin_ok s b t ht hb, burnthin_ok _ b t ht (by simpa [Samples.Ns, mapE_length _ _ _ hm] using hb)]
+        show Samples.vector { s with cols := natSlice s.cols b t } = _
+        unfold Samples.vector
+        simp only [if_neg hrep]
+        rw [mapE_natSlice _ _ _ b t ht hm]
+        rfl
+      · have e1 : (b : ℤ) ≥ (s.Ns : ℤ) := by omega
+        rw [burnthin_error_of_ge s b t e1, burnthin_error_of_ge _ b t (by
+          show (b : ℤ) ≥ ((cs.length : ℕ) : ℤ)
+          rw [mapE_length _ _ _ hm]; exact e1)]
+        rfl
+
+/-- **burn-in/thinning commutes with `parameters`** (refusals included) -/
+theorem burnthin_parameters_commute (s v : Samples) (b t : ℕ) (ht : 1 ≤ t) (h : s.parameters = .ok v) :
+    (s.burnthin b t >>= Samples.parameters) = v.burnthin b t := by
+  by_cases hrep : s.isPar = true
+  · have hid : ∀ s' : Samples, s'.isPar = s.isPar → s'.parameters = .ok s' := by
+      intro s' h1; unfold Samples.parameters; rw [h1, if_pos hrep]
+    rw [hid s rfl] at h
+    cases h
+    cases hb : s.burnthin b t with
+    | error e => rfl
+    | ok s' =>
+      obtain ⟨-, h1, -, -⟩ := burnthin_flags_preserved s s' b t hb
+      exact hid s' h1
+  · unfold Samples.parameters at h
+    rw [if_neg hrep] at h
+    simp only at h
+    generalize hconv : (if (!s.isVec) = true then s.geom.fun2par
+      else fun v => do let f ← s.geom.vec2fun v; s.geom.fun2par f) = conv at h
+    cases hm : mapE conv s.cols with
+    | error e => rw [hm] at h; cases h
+    | ok cs =>
+      rw [hm] at h
+      cases h
+      by_cases hb : b < s.Ns
+      · rw [burnthin_ok s b t ht hb, burnthin_ok _ b t ht (by simpa [Samples.Ns, mapE_length _ _ _ hm] using hb)]
+        show Samples.parameters { s with cols := natSlice s.cols b t } = _
+        unfold Samples.parameters
+        simp only [if_neg hrep, hconv]
+        rw [mapE_natSlice _ _ _ b t ht hm]
+        rfl
+      · have e1 : (b : ℤ) ≥ (s.Ns : ℤ) := by omega
+        rw [burnthin_error_of_ge s b t e1, burnthin_error_of_ge _ b t (by
+          show (b : ℤ) ≥ ((cs.length : ℕ) : ℤ)
+          rw [mapE_length _ _ _ hm]; exact e1)]
+        rfl
+
+
 /-! ## statistics -/
 
 /-- **stats_are_per_coordinate**: a reduction over the sample axis has one entry per flattened
